@@ -45,6 +45,14 @@ def gen_desc(verif_seed: int, i: int, tier: str = "quick") -> dict:
     behaviour = gen.gen_behaviour(rng, udesc, kinds=["http500", "marker", "undocumented"], p_none=0.5, max_n=2)
     if source == "workers":
         cfg["phases"] = [p for p in cfg["phases"] if p != "stateful"] or ["fuzzing"]
+        if (rs >> 11) % 2 == 0:
+            # multi-file document (path items behind $ref into other files) and a check that resolves response schemas while
+            # the other workers do the same
+            udesc["layout"] = "multi"
+            udesc["ref_paths"] = [((rs >> (13 + k)) & 1) == 1 for k in range(2 * len(udesc["collections"]))]
+            for c in udesc["collections"]:
+                c["links"] = [l for l in c["links"] if l["by"] == "operationId"]
+            cfg["checks"] = sorted(set(cfg["checks"]) | {"response_schema_conformance"})
     if source == "disk":
         cfg["database"] = "default"
         cfg["modes"] = ["positive"]
@@ -154,6 +162,8 @@ def compare(desc_a: dict, ra: dict, rb: dict) -> list[dict]:
     def v(rule, msg, **sig):
         sig["negative_mode"] = "negative" in desc_a["config"].get("modes", [])
         sig["source"] = desc_a.get("source")
+        if desc_a["universe"].get("layout") == "multi":
+            sig["layout"] = "multi"
         vs.append({"rule": f"C13/{rule}", "message": msg, "signature": sig})
 
     phases = ["examples", "coverage", "fuzzing", "stateful"]
@@ -362,6 +372,8 @@ class C13Profile(Profile):
         for r in ctx.netlog:
             if r.phase not in ("examples", "coverage", "fuzzing", "stateful"):
                 continue
+            if r.tag in ("document", "doc_fault"):
+                continue  # a lazily fetched part of the API document is not a test request
             hs = sorted([k.lower(), v] for k, v in r.request.headers if k.lower() not in VOLATILE)
             wire.append([r.phase, r.request.method, r.request.url, hs, hashlib.sha1(r.request.body).hexdigest()[:16]])
         failures = []
